@@ -1084,3 +1084,20 @@ Proof.
   intros z y Hy. destruct (H3 z y Hy) as [A [B C]]. split; [exact A|]. split; [exact B|].
   apply is_match_false. exact C.
 Qed.
+
+(* the same at the level of rule kinds (uses the generated fact abstract_pick_by_kind) *)
+Lemma nonmatch_node_TN K r ks : nonmatch_node K (TN r ks) = negb (is_match (K r)).
+Proof. reflexivity. Qed.
+
+Definition plain_node (K : nat -> kind) (p : tree) : Prop :=
+  (exists s, p = TT s) \/ (exists q qs, p = TN q qs /\ K q = KMatch).
+
+Theorem abstract_first_nonmatch_kinds K r pre r' ks post :
+  K r = KAbstract -> (forall p, In p pre -> plain_node K p) -> K r' <> KMatch ->
+  process K (TN r (pre ++ TN r' ks :: post)) = process K (TN r' ks).
+Proof.
+  intros Hr Hp Hk. apply abstract_first_nonmatch; [exact Hr | |].
+  - intros p Hin. destruct (Hp p Hin) as [[s ->]|[q [qs [-> Hq]]]]; [reflexivity|].
+    rewrite nonmatch_node_TN, Hq. reflexivity.
+  - rewrite nonmatch_node_TN. apply negb_true_iff. apply is_match_false. exact Hk.
+Qed.
